@@ -109,28 +109,41 @@ func runC01Chain(c *Ctx, a *pqAnchors) {
 			return false
 		}
 	}
-	// select stop case
-	var sel *ssa.Select
-	allInstrs(send, func(in ssa.Instruction) {
-		if s, ok := in.(*ssa.Select); ok {
-			sel = s
-		}
-	})
-	if sel == nil {
+	// select stop case. The wait may live in Send itself or in a same-package helper that Send calls: the stop
+	// case's returns are then the helper's, the "last error" is the helper's parameter that receives it, and Send
+	// has to return what the helper returned.
+	ws := findWaitSiteA3(send)
+	if ws == nil {
 		c.Bad("retry wait select", p.Pos(send.Pos()), "the retry wait has no select: shutdown cannot interrupt a back-off")
 	} else {
+		sel := ws.sel
 		stopIdx := -1
 		for i, st := range sel.States {
-			if st.Dir == types.RecvOnly && isFieldAccess(st.Chan, retryT, stopField) {
+			if st.Dir == types.RecvOnly && (isFieldAccess(st.Chan, retryT, stopField) || isFieldAccess(ws.toOuter(st.Chan), retryT, stopField)) {
 				stopIdx = i
 			}
 		}
 		if stopIdx < 0 {
 			c.Bad("retry wait: stop-channel case", p.Pos(sel.Pos()), "the wait select has no case on the stop channel")
 		} else {
+			// the last attempt's error, as seen inside the function that contains the select
+			lastErr := isSrc(sendCalls, false)
+			if ws.call != nil {
+				lastErr = func(v ssa.Value) bool {
+					if _, isP := v.(*ssa.Parameter); !isP {
+						return false
+					}
+					o := ws.toOuter(v)
+					if o == v {
+						return false
+					}
+					ok, _ := errChainReaches(o, isSrc(sendCalls, false), nil)
+					return ok
+				}
+			}
 			// blocks guarded by index == stopIdx
 			n := 0
-			for _, r := range returnsOf(send) {
+			for _, r := range returnsOf(ws.fn) {
 				for _, g := range guardsOf(r.Block()) {
 					op, x, y, ok := cmpOf(g)
 					if !ok || op != token.EQL {
@@ -145,19 +158,56 @@ func runC01Chain(c *Ctx, a *pqAnchors) {
 					n++
 					// the returned error keeps a NewShutdownErr(last error) in its chain (directly or wrapped
 					// chain-preservingly: IsShutdownErr matches with errors.As)
-					okShut, _ := errChainReaches(resultsOf(r)[0], func(v ssa.Value) bool {
-						call, ok := v.(*ssa.Call)
-						if !ok || !isFunc(calleeOf(call), pkgExperr, "NewShutdownErr") {
-							return false
+					var res ssa.Value
+					for _, rv := range resultsOf(r) {
+						if isErrorType(rv.Type()) || isNilConst(rv) {
+							res = rv
 						}
-						ok2, _ := errChainReaches(call.Call.Args[0], isSrc(sendCalls, false), nil)
-						return ok2
-					}, nil)
+					}
+					okShut := false
+					if res != nil {
+						okShut, _ = errChainReaches(res, func(v ssa.Value) bool {
+							call, ok := v.(*ssa.Call)
+							if !ok || !isFunc(calleeOf(call), pkgExperr, "NewShutdownErr") {
+								return false
+							}
+							ok2, _ := errChainReaches(call.Call.Args[0], lastErr, nil)
+							return ok2
+						}, nil)
+					}
 					c.Check(okShut, "retry wait: stop-channel case returns a shutdown-classified error", p.Pos(r.Pos()), "returns experr.NewShutdownErr(err of the last attempt)", "a retry wait interrupted by shutdown does not return experr.NewShutdownErr(err): the persistent queue would delete the request")
 				}
 			}
 			if n == 0 {
 				c.Bad("retry wait: stop-channel case returns", p.Pos(sel.Pos()), "no return under the stop-channel case: shutdown does not end the wait")
+			}
+			if ws.call != nil {
+				// Send gives its caller what the interrupted wait returned: every return Send can reach after a
+				// failed (non-nil) wait without another attempt keeps the chain of the wait's error
+				classes := make([]int, ws.fn.Signature.Results().Len())
+				for i := range classes {
+					classes[i] = resNonZeroA3
+				}
+				avoid := map[ssa.Instruction]bool{}
+				for _, sc := range sendCalls {
+					avoid[sc.(ssa.Instruction)] = true
+				}
+				okFwd, nFwd := true, 0
+				for _, r := range returnsOf(send) {
+					if !canReachEdgesA3(ws.call.(ssa.Instruction), r, avoid, edgesAssumingResultA3(ws.call, classes)) {
+						continue
+					}
+					nFwd++
+					for _, rv := range resultsOf(r) {
+						if !isErrorType(rv.Type()) {
+							continue
+						}
+						if ok, _ := errChainReaches(rv, func(v ssa.Value) bool { return resultIndexA3(v, ws.call) >= 0 }, nil); !ok {
+							okFwd = false
+						}
+					}
+				}
+				c.Check(okFwd && nFwd > 0, "retry wait: Send returns the error of the interrupted wait", p.Pos(ws.call.Pos()), "the wait helper's error is returned chain-preservingly", "the error returned by the wait helper (which carries the shutdown classification) is not what Send returns")
 			}
 		}
 	}
